@@ -28,6 +28,7 @@ META = {
     "autoescape_message=False) are the documented opt-outs. __html__ of user objects is outside the claim.",
 }
 META["technique"] += "; typestate over the trusted stringifiers' own bodies (every return escaped when auto_escape is true)"
+META["technique"] += '; checked belief: strip_tags never decodes character references'
 META["level_text"] += ' Also decided (S4): to_liquid_string/_to_liquid_string themselves return only escaped text on every path when auto_escape is true.'
 
 
@@ -311,6 +312,28 @@ def run(prog: Program, res: Result) -> None:
                     else:
                         res.fail("C04.S3", file=reg.file, line=c.lineno, qualname=reg.qualname, construct=c, message="translation filter registered without auto_escape_message=env.auto_escape: its Markup(text) wraps an unescaped operand", what=what)
     res.floor("C04.S3", "default translation filter registrations", n_reg, 5)
+    # ------------------------------------------------------------------ S6 the belief about strip_tags, checked against its code
+    res.rule("C04.S6", "strip_tags preserves the safety of what it is given - the taint engine lets `Markup(strip_tags(<Markup>))` pass - only because removing tags never decodes a character reference: the parser in liquid2/utils/html.py is constructed with convert_charrefs=False and nothing in that module unescapes (html.unescape, convert_charrefs=True); decoded, the `&lt;script&gt;` inside an already escaped capture becomes `<script>` under a Markup mark")
+    html_mod = prog.mod("liquid2/utils/html.py")
+    n_s6 = 0
+    bad_s6 = []
+    for c6 in ast.walk(html_mod.tree):
+        if isinstance(c6, ast.Call):
+            q6 = (dotted(c6.func) or "").split(".")[-1]
+            if q6 in ("unescape", "html_unescape") or "unescape" in q6:
+                bad_s6.append((c6, f"`{norm(c6, 40)}` decodes character references"))
+            for k6 in c6.keywords:
+                if k6.arg == "convert_charrefs":
+                    n_s6 += 1
+                    if not (isinstance(k6.value, ast.Constant) and k6.value.value is False):
+                        bad_s6.append((c6, f"convert_charrefs={norm(k6.value)}"))
+    if bad_s6:
+        c6, why6 = bad_s6[0]
+        fi6 = prog.enclosing_function(html_mod, c6)
+        res.fail("C04.S6", file=html_mod.relpath, line=c6.lineno, qualname=fi6.qualname if fi6 else "<module>", construct=f"liquid2/utils/html.py: {why6[:50]}", message=f"{why6}: text that was escaped on its way into a Markup value (a capture of `{{{{ x }}}}` under auto-escape) is decoded back to raw `<`, `>`, `&` while strip_html keeps the Markup mark on Markup input - `{{% capture c %}}{{{{ x }}}}{{% endcapture %}}{{{{ c | strip_html }}}}` prints the script tag", what="strip_tags never decodes character references")
+    else:
+        res.ok("C04.S6", f"{html_mod.relpath}:1 StripParser", "strip_tags never decodes character references", "convert_charrefs=False, no unescape call")
+    res.floor("C04.S6", "convert_charrefs settings in utils/html.py", n_s6, 1)
     # render buffers: a buffer obtained from get_output_buffer may only be passed to render calls (never written with data)
     for fi in prog.all_functions():
         bufs: set[str] = set()
